@@ -275,6 +275,16 @@ PoolC04 ==
     PE(Call("normalize-space", <<>>), "set"),
     PE(Bin("+", Call("count", <<Rel1("preceding", NTAny)>>), Call("count", <<Rel1("following", NTAny)>>)), "set") }
 
+\* the same node-set expressions evaluated IN PLACE by an operator (Evaluate runs
+\* on the compiled tree itself; an early match abandons the operand half-way)
+IsNSMode(pe) == pe.e.t \in {"path", "filter", "union", "seqstep"}
+PoolC04ops ==
+    UNION { { PE(Bin("=", pe.e, Lit("1")), pe.m), PE(Bin("!=", pe.e, Lit("2")), pe.m),
+              PE(Bin("=", pe.e, Lit("2")), pe.m), PE(Bin("!=", pe.e, Lit("")), pe.m), PE(Bin("=", pe.e, Lit("")), pe.m),
+              PE(Bin(">", pe.e, N(0)), pe.m), PE(Bin("+", pe.e, N(1)), IF pe.m = "seq" THEN "set" ELSE "none"),
+              PE(Bin("or", pe.e, Call("false", <<>>)), IF pe.m = "none" THEN "none" ELSE "set") }
+            : pe \in {x \in PoolC04 : IsNSMode(x)} }
+
 \* C12: flat paths (document order, no duplicates) exhaustively, plus
 \* non-flat node-set expressions for the protocol relations
 FlatAxes == {"child", "attribute", "self"}
